@@ -300,6 +300,16 @@ def gen_case(rng, fam, n_ops=None):
         if any(np.array_equal(T, X) for X in sets):
             return None
         sets.append(T)
+    # previous lives of the object under test: (a) its first target was stored with an integer dtype (points on the
+    # pixel grid); (b) it was born as the pseudoinverse() of the reverse alignment instead of from the constructor
+    first_int, birth = False, None
+    if rng.random() < 0.2:
+        T1 = np.round(sets[1])
+        if spread(T1, 0.5) and ((not need_rot) or rot_conditioned(S, T1)) and \
+                not any(np.array_equal(T1, X) for X in [S] + sets[2:]):
+            sets[1], first_int = T1, True
+    elif mcls != "pwa" and rng.random() < 0.25:
+        birth = "pinv"      # (a pinv-born PWA keeps the other point set's triangulation: not "the same source")
     valid = list(range(1, len(sets)))
     if (not need_rot) or rot_conditioned(S, S):
         valid.append(0)                                    # the source itself as a target
@@ -326,6 +336,9 @@ def gen_case(rng, fam, n_ops=None):
             n_objs += 1
         else:
             ops.append(["A", i])
+    if birth == "pinv":
+        # the property speaks about the object *after set_target*: a pinv-born object is first retargeted
+        ops.insert(0, ["S", 0, rng.choice([v for v in valid if v != 0] or valid)])
     if mcls == "pwa":
         tri = tl if opts["source"] == "trimesh" else None
         probes, pinfo = pwa_probes(rng, S, tl if tri is not None else delaunay(S))
@@ -334,7 +347,7 @@ def gen_case(rng, fam, n_ops=None):
         pinfo = None
     return {"kind": "hist", "mcls": mcls, "icls": icls, "d": d, "opts": opts,
             "sets": [X.tolist() for X in sets], "trilist": tl.tolist() if (tl is not None and opts.get("source") == "trimesh") else None,
-            "ops": ops, "probes": probes.tolist(), "pinfo": pinfo}
+            "ops": ops, "probes": probes.tolist(), "pinfo": pinfo, "first_int": first_int, "birth": birth}
 
 
 def delaunay(S):
@@ -416,6 +429,8 @@ def run_case(ctx, case, lines=None, pending=None, count=True):
                                "Cls(copy of sets[0], copy of last accepted target, **opts); "
                                "./check C08 --replay <this file> re-runs it"}
     pcs = [make_source(case, sets_arr[0].copy())] + [PointCloud(X.copy()) for X in sets_arr[1:]]
+    if case.get("first_int"):
+        pcs[1] = PointCloud(sets_arr[1].astype(np.int64))
     digest0 = [p.points.tobytes() for p in pcs]
 
     def fresh(r):
@@ -460,8 +475,19 @@ def run_case(ctx, case, lines=None, pending=None, count=True):
             ok = False
         return ok
 
+    ctx.count("birth:%s%s" % (case.get("birth") or "constructor", "/int-first-target" if case.get("first_int") else ""))
     try:
-        objs = [make_obj(case, pcs[0], pcs[1])]
+        objs = None
+        if case.get("birth") == "pinv":
+            try:
+                rev = make_obj(case, make_source(case, sets_arr[1].copy()), PointCloud(sets_arr[0].copy()))
+                born = rev.pseudoinverse()
+                if np.array_equal(born.source.points, sets_arr[0]) and np.array_equal(born.target.points, sets_arr[1]):
+                    objs = [born]
+            except Exception:      # a singular reverse alignment has no inverse: use the constructor
+                objs = None
+        if objs is None:
+            objs = [make_obj(case, pcs[0], pcs[1])]
     except Exception as e:
         ctx.fail(site, "raises", "constructor raised %s: %s" % (type(e).__name__, str(e)[:100]), rp)
         return
@@ -469,7 +495,9 @@ def run_case(ctx, case, lines=None, pending=None, count=True):
     verdicts = []
     accepted = 0
     after_copy = False
-    ok_all = compare(objs[0], 1, "after construction")
+    ok_all = True
+    if objs[0] is not None and not (case.get("birth") == "pinv" and case["ops"] and case["ops"][0][0] == "S"):
+        ok_all = compare(objs[0], 1, "after construction")
     for k, op in enumerate(case["ops"]):
         if op[0] == "S":
             i, r = op[1], op[2]
